@@ -39,6 +39,8 @@ const STR: u8 = 2; // string instruction (REP prefixes are meaningful)
 const LOCK: u8 = 4; // LOCK-able with a memory destination
 const SSE: u8 = 8;
 const RARE: u8 = 16; // forms the lifter rejects or that fault natively: generated seldom
+const M32: u8 = 32; // mode-variant form covered by the 32-bit reference model (model32.rs)
+const ONLY32: u8 = 64; // exists only in 32-bit mode (inc/dec r32 short forms)
 
 #[derive(Clone, Copy, Debug)]
 pub struct Row {
@@ -105,10 +107,10 @@ fn build_rows() -> Vec<Row> {
         v.push(row(mn, 0, 0, 0xFE, n, RM_ANY, SZ_BYTE, IMM_NONE, LOCK));
         v.push(row(mn, 0, 0, 0xFF, n, RM_ANY, SZ_WIDE, IMM_NONE, LOCK));
     }
-    v.push(row("call", 0, 0, 0xFF, 2, RM_ANY, SZ_D64, IMM_NONE, NO32));
-    v.push(row("jmp", 0, 0, 0xFF, 4, RM_ANY, SZ_D64, IMM_NONE, NO32));
-    v.push(row("push", 0, 0, 0xFF, 6, RM_ANY, SZ_D64, IMM_NONE, NO32));
-    v.push(row("pop", 0, 0, 0x8F, 0, RM_ANY, SZ_D64, IMM_NONE, NO32));
+    v.push(row("call", 0, 0, 0xFF, 2, RM_ANY, SZ_D64, IMM_NONE, NO32 | M32));
+    v.push(row("jmp", 0, 0, 0xFF, 4, RM_ANY, SZ_D64, IMM_NONE, NO32 | M32));
+    v.push(row("push", 0, 0, 0xFF, 6, RM_ANY, SZ_D64, IMM_NONE, NO32 | M32));
+    v.push(row("pop", 0, 0, 0x8F, 0, RM_ANY, SZ_D64, IMM_NONE, NO32 | M32));
     // MOV
     v.push(row("mov", 0, 0, 0x88, -1, RM_ANY, SZ_BYTE, IMM_NONE, 0));
     v.push(row("mov", 0, 0, 0x89, -1, RM_ANY, SZ_WIDE, IMM_NONE, 0));
@@ -118,10 +120,10 @@ fn build_rows() -> Vec<Row> {
     v.push(row("mov", 0, 0, 0xC7, 0, RM_ANY, SZ_WIDE, IMM_Z, 0));
     v.push(Row { plus_r: true, ..row("mov", 0, 0, 0xB0, 0, RM_NONE, SZ_BYTE, IMM_B, 0) });
     v.push(Row { plus_r: true, ..row("mov", 0, 0, 0xB8, 0, RM_NONE, SZ_WIDE, IMM_V, 0) });
-    v.push(row("mov.moffs", 0, 0, 0xA0, 0, RM_NONE, SZ_BYTE, MOFFS, NO32));
-    v.push(row("mov.moffs", 0, 0, 0xA1, 0, RM_NONE, SZ_WIDE, MOFFS, NO32));
-    v.push(row("mov.moffs", 0, 0, 0xA2, 0, RM_NONE, SZ_BYTE, MOFFS, NO32));
-    v.push(row("mov.moffs", 0, 0, 0xA3, 0, RM_NONE, SZ_WIDE, MOFFS, NO32));
+    v.push(row("mov.moffs", 0, 0, 0xA0, 0, RM_NONE, SZ_BYTE, MOFFS, NO32 | M32));
+    v.push(row("mov.moffs", 0, 0, 0xA1, 0, RM_NONE, SZ_WIDE, MOFFS, NO32 | M32));
+    v.push(row("mov.moffs", 0, 0, 0xA2, 0, RM_NONE, SZ_BYTE, MOFFS, NO32 | M32));
+    v.push(row("mov.moffs", 0, 0, 0xA3, 0, RM_NONE, SZ_WIDE, MOFFS, NO32 | M32));
     v.push(row("mov.sreg", 0, 0, 0x8C, -1, RM_ANY, SZ_WIDE, IMM_NONE, RARE));
     v.push(row("mov.sreg", 0, 0, 0x8E, -1, RM_ANY, SZ_WIDE, IMM_NONE, RARE));
     v.push(row("lea", 0, 0, 0x8D, -1, RM_MEM, SZ_WIDE, IMM_NONE, 0));
@@ -187,23 +189,26 @@ fn build_rows() -> Vec<Row> {
         v.push(row(mn, 0, 0, op, 0, RM_NONE, SZ_FIXED, IMM_NONE, RARE));
     }
     v.push(row("int", 0, 0, 0xCD, 0, RM_NONE, SZ_FIXED, IMM_B, RARE));
-    v.push(row("leave", 0, 0, 0xC9, 0, RM_NONE, SZ_FIXED, IMM_NONE, NO32));
-    v.push(row("ret", 0, 0, 0xC3, 0, RM_NONE, SZ_FIXED, IMM_NONE, NO32));
-    v.push(row("ret", 0, 0, 0xC2, 0, RM_NONE, SZ_FIXED, IMM_W, NO32));
-    v.push(Row { plus_r: true, ..row("push", 0, 0, 0x50, 0, RM_NONE, SZ_D64, IMM_NONE, NO32) });
-    v.push(Row { plus_r: true, ..row("pop", 0, 0, 0x58, 0, RM_NONE, SZ_D64, IMM_NONE, NO32) });
-    v.push(row("push", 0, 0, 0x6A, 0, RM_NONE, SZ_D64, IMM_B, NO32));
-    v.push(row("push", 0, 0, 0x68, 0, RM_NONE, SZ_D64, IMM_Z, NO32));
+    v.push(row("leave", 0, 0, 0xC9, 0, RM_NONE, SZ_FIXED, IMM_NONE, NO32 | M32));
+    v.push(row("ret", 0, 0, 0xC3, 0, RM_NONE, SZ_FIXED, IMM_NONE, NO32 | M32));
+    v.push(row("ret", 0, 0, 0xC2, 0, RM_NONE, SZ_FIXED, IMM_W, NO32 | M32));
+    v.push(Row { plus_r: true, ..row("push", 0, 0, 0x50, 0, RM_NONE, SZ_D64, IMM_NONE, NO32 | M32) });
+    v.push(Row { plus_r: true, ..row("pop", 0, 0, 0x58, 0, RM_NONE, SZ_D64, IMM_NONE, NO32 | M32) });
+    v.push(row("push", 0, 0, 0x6A, 0, RM_NONE, SZ_D64, IMM_B, NO32 | M32));
+    v.push(row("push", 0, 0, 0x68, 0, RM_NONE, SZ_D64, IMM_Z, NO32 | M32));
     for op in [0xA0u8, 0xA8] {
         v.push(row("push.sreg", 0, 1, op, 0, RM_NONE, SZ_D64, IMM_NONE, NO32 | RARE));
         v.push(row("pop.sreg", 0, 1, op + 1, 0, RM_NONE, SZ_D64, IMM_NONE, NO32 | RARE));
     }
-    v.push(row("call", 0, 0, 0xE8, 0, RM_NONE, SZ_FIXED, REL32, NO32));
+    v.push(row("call", 0, 0, 0xE8, 0, RM_NONE, SZ_FIXED, REL32, NO32 | M32));
     v.push(row("jmp", 0, 0, 0xE9, 0, RM_NONE, SZ_FIXED, REL32, 0));
     v.push(row("jmp", 0, 0, 0xEB, 0, RM_NONE, SZ_FIXED, REL8, 0));
     for (op, mn) in [(0xE0u8, "loopne"), (0xE1, "loope"), (0xE2, "loop"), (0xE3, "jrcxz")] {
-        v.push(row(mn, 0, 0, op, 0, RM_NONE, SZ_FIXED, REL8, NO32));
+        v.push(row(mn, 0, 0, op, 0, RM_NONE, SZ_FIXED, REL8, NO32 | M32));
     }
+    // 32-bit mode only: inc/dec r32 short forms (REX prefixes in 64-bit mode)
+    v.push(Row { plus_r: true, ..row("inc.short", 0, 0, 0x40, 0, RM_NONE, SZ_D64, IMM_NONE, NO32 | M32 | ONLY32) });
+    v.push(Row { plus_r: true, ..row("dec.short", 0, 0, 0x48, 0, RM_NONE, SZ_D64, IMM_NONE, NO32 | M32 | ONLY32) });
     // SSE subset
     let s = SSE | NO32;
     for (pfx, op, mn) in [
@@ -237,6 +242,7 @@ struct Tables {
     /// distinct labels with the indices of their rows, for amd64 and for the 32-bit subset
     groups64: Vec<Vec<usize>>,
     groups32: Vec<Vec<usize>>,
+    groups32m: Vec<Vec<usize>>,
 }
 
 fn tables() -> &'static Tables {
@@ -260,9 +266,10 @@ fn tables() -> &'static Tables {
             }
             groups
         };
-        let groups64 = mk(&|_| true);
+        let groups64 = mk(&|r| r.fl & ONLY32 == 0);
         let groups32 = mk(&|r| r.fl & NO32 == 0);
-        Tables { rows, groups64, groups32 }
+        let groups32m = mk(&|r| r.fl & M32 != 0);
+        Tables { rows, groups64, groups32, groups32m }
     })
 }
 
@@ -356,7 +363,15 @@ const SEG_PREFIXES: [u8; 6] = [0x26, 0x2E, 0x36, 0x3E, 0x64, 0x65];
 /// no mod=00 rm=101, no opcode whose meaning differs between the modes).
 pub fn gen_encoded(t: &mut Tape, m32: bool) -> Asm {
     let tb = tables();
-    let groups = if m32 { &tb.groups32 } else { &tb.groups64 };
+    let groups = if m32 {
+        if t.chance(1, 3) {
+            &tb.groups32m
+        } else {
+            &tb.groups32
+        }
+    } else {
+        &tb.groups64
+    };
     let mut r;
     loop {
         let g = &groups[t.below(groups.len())];
@@ -384,7 +399,7 @@ pub fn encode_row(t: &mut Tape, r: &Row, m32: bool) -> Asm {
         SZ_BYTE => 8,
         SZ_WIDE => *t.pick(if m32 { &[32usize, 16, 32, 16][..] } else { &[32usize, 64, 16, 64, 32][..] }),
         SZ_D64 => {
-            if t.chance(1, 6) {
+            if t.chance(1, if m32 { 16 } else { 6 }) {
                 16
             } else {
                 64
@@ -507,7 +522,7 @@ pub fn encode_row(t: &mut Tape, r: &Row, m32: bool) -> Asm {
         let k = t.below(legacy.len());
         legacy.rotate_left(k);
     }
-    if addr32 && r.imm == MOFFS {
+    if (addr32 || m32) && r.imm == MOFFS {
         imm.truncate(4);
     }
     let force_rex = !m32 && t.chance(1, 10);
